@@ -80,6 +80,15 @@ func RandomHistories(w *WorldJSON, seed int64, n, depth int, routers []string, f
 					}
 				}
 			}
+			if (focus == "clientauth" || focus == "code" || focus == "tokenuse") && i%40 == 2 {
+				g.credentialMatrix(emit)
+			}
+			if (focus == "tokenuse" || focus == "exchange") && i%25 == 3 {
+				g.deadTokenMatrix(emit)
+			}
+			if (focus == "refresh" || focus == "clientauth") && i%25 == 4 {
+				g.refreshWithoutGrant(emit)
+			}
 			if (focus == "clientauth" || focus == "exchange") && i%25 == 1 {
 				// scripted table inside a history: every client (with and without the token-exchange grant, confidential and public,
 				// unknown) asks for an exchange of a live access token with the credentials it is registered for
@@ -194,7 +203,7 @@ func (g *gen) cred(c string) M {
 	case 1:
 		return M{"kind": "none", "secret": "none", "key": "none"}
 	case 2:
-		return M{"kind": "assertion", "secret": "none", "key": g.pick("own", "foreign")}
+		return M{"kind": "assertion", "secret": "none", "key": g.pick("own", "foreign", "sibling")}
 	case 3:
 		return M{"kind": g.pick("basic", "post"), "secret": "right", "key": "none"}
 	case 4:
